@@ -226,6 +226,28 @@ def run(ctx):
            ('the walk also ends on %s: the ancestor with that pid is never compared with the list (pid 1 is the '
             'entrypoint/supervisor of every container)' % render(other[0])) if other else 'the walk is not bounded by "pid != 0"',
            nontrivial=False, how='the only pid test that leaves the loop is a comparison with 0')
+    # the name taken from the stat line reaches the comparison whole: a bounded copy into a local array is given the
+    # array's full size (snprintf counts the terminator in its size: "size - 1" there cuts a 15-byte name to 14)
+    short = []
+    ncopies = 0
+    for g in fs:
+        arrays = {x['id']: x for x in g.local_decls() if 'arrayLen' in x and 'char' in (x.get('ct') or '')}
+        for c_ in g.calls():
+            if c_.get('callee') not in ('snprintf', 'strlcpy') or len(c_.ch) < 3:
+                continue
+            d_ = decl_of(arg(c_, 0))
+            nv = strip(arg(c_, 1)).get('v') if strip(arg(c_, 1)) is not None else None
+            if d_ is None or d_['id'] not in arrays or nv is None:
+                continue
+            ncopies += 1
+            if nv < (arrays[d_['id']].get('size') or 0):
+                short.append((g, c_, nv, arrays[d_['id']].get('size')))
+    chk.ob('X2', 'bounded-copies-use-the-whole-buffer', not short, short[0][1].where() if short else W.where(),
+           short[0][0].name if short else W.name,
+           '%s is given %s bytes of a %s-byte buffer: a text that would fill the buffer is cut one character short (a '
+           '15-byte process name no longer equals its entry in the list, and equals a 14-byte one)' % (
+               render(short[0][1])[:50] if short else '', short[0][2] if short else '', short[0][3] if short else ''),
+           how='%d bounded copies into local arrays, each with the array size' % ncopies, nontrivial=False)
     # ---- X2 --------------------------------------------------------------------------------------
     # (a) find_string_in_array-like: returns non-zero only through strcmp == 0
     S = cmpf[-1] if cmpf else None
